@@ -468,12 +468,14 @@ fn exec1(env: &Env, s: &Stmt) -> Env {
             env.clone()
         }
         Stmt::Dispose(x) => {
+            log(format!("disp {x}"));
             match lookup(env, *x) {
                 Bind::Sig(s) => s.dispose(),
                 Bind::Read(s) => s.dispose(),
                 Bind::Handle(h) => h.dispose(),
                 Bind::Cell(_) => panic!("ILL-FORMED: dispose of a cell"),
             }
+            log(format!("dispend {x}"));
             env.clone()
         }
         Stmt::Batch(ss) => {
